@@ -107,6 +107,7 @@ def entries(name, tier):
     ck = (name, tier)
     if ck in _TABLE_CACHE:
         return _TABLE_CACHE[ck]
+    cat.names()  # makes the catalogue register its wrapper / template recipes (needed when a replay calls check() directly)
     out = {}
     wrapper = cat.category(name) == "wrapper"
     if wrapper:
@@ -186,7 +187,7 @@ def _commutator_norm(Ma, wa, Mb, wb):
 
 
 def _roles(op):
-    cw = set(getattr(op, "control_wires", []) or [])
+    cw = set(getattr(op, "control_wires", None) or [])
     return {w: ("c" if w in cw else "t") for w in op.wires}
 
 
@@ -219,6 +220,23 @@ def _class_name(op):
     except Exception:  # noqa: BLE001
         pass
     return _target_name(op)
+
+
+def _hides_controls(op):
+    import pennylane as qp
+
+    try:
+        with qp.QueuingManager.stop_recording():
+            op = qp.simplify(op)
+    except Exception:  # noqa: BLE001
+        pass
+    seen = 0
+    while hasattr(op, "base") and seen < 6:
+        if len(getattr(op, "control_wires", None) or ()) == 0 and len(getattr(op.base, "control_wires", None) or ()) > 0:
+            return True
+        op = op.base
+        seen += 1
+    return False
 
 
 def _single_word(op):
@@ -272,6 +290,10 @@ def judge(a, b, na, nb_, ka=None, kb=None):
         if ta in SWAP_LIKE and tb in SWAP_LIKE and pat.endswith("-partial"):
             # one defect class: the SWAP-group table entry is applied although the two (simplified) SWAP-like targets overlap on one wire only
             sig = "unsound:swap-group×swap-group:partial-target-overlap"
+        elif _hides_controls(a) or _hides_controls(b):
+            # one defect class: a Pow/Adjoint wrapper that simplify() cannot remove reports no control_wires, so the control wires of
+            # the wrapped controlled gate are treated as targets of its innermost base (sqrt(CH) vs H on the control, sqrt(CY) vs Y ...)
+            sig = "unsound:unsimplified-wrapper-of-controlled-op:control-wires-treated-as-targets"
         else:
             (n1, x1), (n2, x2) = sorted([(na, a), (nb_, b)], key=lambda t: t[0])
             sig = f"unsound:{n1}×{n2}:{_pattern(x1, x2)}"
